@@ -4,9 +4,17 @@
 package hs
 
 import (
+	"crypto/ecdsa"
+	"crypto/elliptic"
+	"crypto/rand"
+	"crypto/x509"
+	"crypto/x509/pkix"
+	"encoding/pem"
 	"fmt"
+	"math/big"
 	"os"
 	"strings"
+	"time"
 
 	"cedarsim/kernel"
 	"cedarsim/refcodec"
@@ -128,3 +136,73 @@ func MethodsName(m []security.AuthMethod) string {
 
 // Now is the simulated wall clock in Unix seconds (valid inside a bubble).
 func Now() int64 { return timeNow().Unix() }
+
+// SSLWorld is a throw-away CA and server certificate for the SSL method. The server
+// reads its certificate and key through the in-memory credential reader; the client's
+// CA bundle has to be a real file (cedar reads it with os.ReadFile), written under
+// /var/tmp with a per-process name and removed by Close.
+type SSLWorld struct {
+	CAFile     string
+	CertFile   string
+	KeyFile    string
+	ServerName string
+	Creds      MemCreds
+}
+
+// NewSSLWorld generates the certificates (valid around the bubble's year 2000 clock).
+func NewSSLWorld() (*SSLWorld, error) {
+	w := &SSLWorld{CertFile: "/simssl/cert.pem", KeyFile: "/simssl/key.pem", ServerName: "server.sim", Creds: MemCreds{}}
+	caKey, err := ecdsa.GenerateKey(elliptic.P256(), rand.Reader)
+	if err != nil {
+		return nil, err
+	}
+	nb, na := time.Date(1999, 1, 1, 0, 0, 0, 0, time.UTC), time.Date(2100, 1, 1, 0, 0, 0, 0, time.UTC)
+	caT := &x509.Certificate{SerialNumber: big.NewInt(1), Subject: pkix.Name{CommonName: "cedarsim CA"}, NotBefore: nb, NotAfter: na, IsCA: true, BasicConstraintsValid: true, KeyUsage: x509.KeyUsageCertSign | x509.KeyUsageDigitalSignature}
+	caDER, err := x509.CreateCertificate(rand.Reader, caT, caT, &caKey.PublicKey, caKey)
+	if err != nil {
+		return nil, err
+	}
+	caCert, err := x509.ParseCertificate(caDER)
+	if err != nil {
+		return nil, err
+	}
+	key, err := ecdsa.GenerateKey(elliptic.P256(), rand.Reader)
+	if err != nil {
+		return nil, err
+	}
+	tm := &x509.Certificate{SerialNumber: big.NewInt(2), Subject: pkix.Name{CommonName: w.ServerName}, DNSNames: []string{w.ServerName}, NotBefore: nb, NotAfter: na, KeyUsage: x509.KeyUsageDigitalSignature, ExtKeyUsage: []x509.ExtKeyUsage{x509.ExtKeyUsageServerAuth}}
+	der, err := x509.CreateCertificate(rand.Reader, tm, caCert, &key.PublicKey, caKey)
+	if err != nil {
+		return nil, err
+	}
+	kb, err := x509.MarshalECPrivateKey(key)
+	if err != nil {
+		return nil, err
+	}
+	w.Creds[w.CertFile] = pem.EncodeToMemory(&pem.Block{Type: "CERTIFICATE", Bytes: der})
+	w.Creds[w.KeyFile] = pem.EncodeToMemory(&pem.Block{Type: "EC PRIVATE KEY", Bytes: kb})
+	w.CAFile = fmt.Sprintf("/var/tmp/cedarsim-ca-%d.pem", os.Getpid())
+	if err := os.WriteFile(w.CAFile, pem.EncodeToMemory(&pem.Block{Type: "CERTIFICATE", Bytes: caDER}), 0o600); err != nil {
+		return nil, err
+	}
+	return w, nil
+}
+
+// Close removes the CA file.
+func (w *SSLWorld) Close() { _ = os.Remove(w.CAFile) }
+
+// Server fills the server-side SSL fields of cfg; Client the client-side ones.
+func (w *SSLWorld) Server(cfg *security.SecurityConfig) {
+	cfg.CertFile, cfg.KeyFile = w.CertFile, w.KeyFile
+	if cfg.Credentials == nil {
+		cfg.Credentials = w.Creds
+	} else if mc, ok := cfg.Credentials.(MemCreds); ok {
+		for k, v := range w.Creds {
+			mc[k] = v
+		}
+	}
+}
+
+func (w *SSLWorld) Client(cfg *security.SecurityConfig) {
+	cfg.CAFile, cfg.ServerName = w.CAFile, w.ServerName
+}
